@@ -2,5 +2,7 @@
 From Rosmar Require Import Base Json Crc Kv Store Trace KvTac.
 
 Theorem C08_row_sound : rc_sound chk_row_C08.
-Proof. start_rc. all: unfold chk_row_C08; fin. Qed.
+Proof. start_rc. all: unfold chk_row_C08; fin.
+  all: exfalso; match goal with n : ?a <> ?b |- _ => apply n; reflexivity end.
+Qed.
 
